@@ -97,12 +97,46 @@ class Merge:
         self.caps.extend(c for c in other.caps if c not in self.caps)
 
 
+_ACTIVE_COV = None
+
+
+def _cov_start():
+    """VERIF_COV=<dir>: line coverage of the tatsu tree while a shard runs (tools/covreport.py reads it).
+    A measuring aid for finding blind spots of a check; never on in registered commands."""
+    d = os.environ.get('VERIF_COV')
+    if not d:
+        return None
+    import coverage
+    global _ACTIVE_COV
+    if _ACTIVE_COV is not None:        # inherited from the forking parent: the parent saves its own data
+        try:
+            _ACTIVE_COV.stop()
+        except Exception:  # noqa
+            pass
+    os.makedirs(d, exist_ok=True)
+    cov = _ACTIVE_COV = coverage.Coverage(data_file=os.path.join(d, '.coverage'), data_suffix=True, include=[str(REPO / 'tatsu' / '*')])
+    cov.start()
+    return cov
+
+
+def _cov_stop(cov):
+    global _ACTIVE_COV
+    if cov is not None:
+        cov.stop()
+        cov.save()
+        _ACTIVE_COV = None
+
+
 def _worker(args):
     func, shard_index, items, extra = args
     try:
         assert_tree()
         m = Merge()
-        func(m, items, **extra)
+        cov = _cov_start()
+        try:
+            func(m, items, **extra)
+        finally:
+            _cov_stop(cov)
         return m
     except BaseException:  # noqa
         m = Merge()
